@@ -180,6 +180,18 @@ CHECKS = {
         ref="DESIGN.md 6 (C05)",
         technique="helper table in the TLA+ semantics; TLC-generated call sites rendered as real Python lambdas/defs; "
                   "TLC trace validation by semantic equality"),
+    "C04": dict(
+        text="spec/Capture.tla is a state machine of Python name resolution around a lambda: closure cells, module "
+             "globals, nested class constants, a module attribute, a closure variable and a global of the same name; "
+             "actions Build(shape) / Rebind(slot, value) / DelGlobal over 11 lambda shapes in which the captured names are "
+             "free, or re-bound by the lambda's own parameter, a nested lambda or a comprehension target. TLC checks "
+             "Frozen on the model, exports every history, the harness replays them with real closures (nonlocal / global "
+             "/ class / module attribute rebinding) and TLC (TraceCapture) validates after EVERY step that each built "
+             "query shows ExpectedLam(shape, snapshot at its Build) - right at the call, unchanged ever after - and that "
+             "the call raised ValueError exactly when a captured value is not transportable.",
+        ref="DESIGN.md 6 (C04)",
+        technique="TLA+ state machine of name resolution and rebinding; TLC-generated histories replayed on real "
+                  "closures; TLC trace validation of every built query after every step"),
 }
 
 ORDER = ["C%02d" % i for i in range(1, 21)]
